@@ -41,10 +41,11 @@ VARIABLES now, dirUp, outages, restarts, running,
           lock,          \* writer holding the rotation mutex, or NULL
           pc, wNow, wOld, wNew, wCur, wFile, wId,   \* per writer
           nWrites, acked, lost, wStartTick, wEndTick, createdBy, failedCreates,
-          rd, cand, solo, stale   \* clock reading per write; writes running alone; intervals whose creation failed
+          rd, cand, solo, stale,  \* clock reading per write; writes running alone; intervals whose creation failed
+          retried                 \* writes that hit a closed file and were retried on the current one
 vars == <<now, dirUp, outages, restarts, running, marker, file, oldFile, handles, dir, lock,
           pc, wNow, wOld, wNew, wCur, wFile, wId, nWrites, acked, lost, wStartTick, wEndTick,
-          createdBy, failedCreates, rd, cand, solo, stale>>
+          createdBy, failedCreates, rd, cand, solo, stale, retried>>
 
 Idle == \A w \in Writers : pc[w] = "idle"
 OpenHandles == { h \in DOMAIN handles : handles[h].open }
@@ -66,29 +67,29 @@ Init ==
   /\ wId = [w \in Writers |-> 0]
   /\ nWrites = 0 /\ acked = {} /\ lost = {}
   /\ wStartTick = <<>> /\ wEndTick = <<>> /\ createdBy = <<>> /\ failedCreates = 0
-  /\ rd = [i \in 1..MaxWrites |-> 0] /\ cand = {} /\ solo = {} /\ stale = {}
+  /\ rd = [i \in 1..MaxWrites |-> 0] /\ cand = {} /\ solo = {} /\ stale = {} /\ retried = {}
 
 (******************************* environment *******************************)
 Tick == /\ now < MaxTick /\ now' = now + 1
         /\ UNCHANGED <<dirUp, outages, restarts, running, marker, file, oldFile, handles, dir, lock, pc, wNow, wOld,
-                       wNew, wCur, wFile, wId, nWrites, acked, lost, wStartTick, wEndTick, createdBy, failedCreates, rd, cand, solo, stale>>
+                       wNew, wCur, wFile, wId, nWrites, acked, lost, wStartTick, wEndTick, createdBy, failedCreates, rd, cand, solo, stale, retried>>
 DirDown == /\ dirUp /\ outages < MaxOutages /\ dirUp' = FALSE /\ outages' = outages + 1
            /\ UNCHANGED <<now, restarts, running, marker, file, oldFile, handles, dir, lock, pc, wNow, wOld, wNew,
-                          wCur, wFile, wId, nWrites, acked, lost, wStartTick, wEndTick, createdBy, failedCreates, rd, cand, solo, stale>>
+                          wCur, wFile, wId, nWrites, acked, lost, wStartTick, wEndTick, createdBy, failedCreates, rd, cand, solo, stale, retried>>
 DirUp == /\ ~dirUp /\ dirUp' = TRUE
          /\ UNCHANGED <<now, outages, restarts, running, marker, file, oldFile, handles, dir, lock, pc, wNow, wOld,
-                        wNew, wCur, wFile, wId, nWrites, acked, lost, wStartTick, wEndTick, createdBy, failedCreates, rd, cand, solo, stale>>
+                        wNew, wCur, wFile, wId, nWrites, acked, lost, wStartTick, wEndTick, createdBy, failedCreates, rd, cand, solo, stale, retried>>
 \* Stop / Start only with no write in progress (premise of the properties)
 Stop == /\ running /\ Idle /\ restarts < MaxRestarts
         /\ handles' = CloseH(CloseH(handles, oldFile), file)
         /\ oldFile' = NULL /\ file' = NULL /\ running' = FALSE
         /\ UNCHANGED <<now, dirUp, outages, restarts, marker, dir, lock, pc, wNow, wOld, wNew, wCur, wFile, wId,
-                       nWrites, acked, lost, wStartTick, wEndTick, createdBy, failedCreates, rd, cand, solo, stale>>
+                       nWrites, acked, lost, wStartTick, wEndTick, createdBy, failedCreates, rd, cand, solo, stale, retried>>
 Start == /\ ~running /\ Idle /\ dirUp
          /\ OpenFile(now) /\ file' = Len(handles) + 1 /\ marker' = Ivl(now)
          /\ running' = TRUE /\ restarts' = restarts + 1
          /\ UNCHANGED <<now, dirUp, outages, oldFile, lock, pc, wNow, wOld, wNew, wCur, wFile, wId, nWrites, acked,
-                        lost, wStartTick, wEndTick, createdBy, failedCreates, rd, cand, solo, stale>>
+                        lost, wStartTick, wEndTick, createdBy, failedCreates, rd, cand, solo, stale, retried>>
 
 (********************************* a write *********************************)
 Goto(w, l) == pc' = [pc EXCEPT ![w] = l]
@@ -103,7 +104,7 @@ Begin(w) ==                      \* idle -> "clock": the call starts
   /\ cand' = IF \A v \in Writers : pc[v] = "idle" THEN {nWrites + 1} ELSE {}
   /\ Goto(w, "clock")
   /\ UEnv /\ UNCHANGED <<marker, file, oldFile, handles, dir, lock, wNow, wOld, wNew, wCur, wFile, acked, lost,
-                         wEndTick, createdBy, failedCreates, rd, solo, stale>>
+                         wEndTick, createdBy, failedCreates, rd, solo, stale, retried>>
 
 ReadClock(w) ==                  \* "clock" -> p1: now := clock; oldTime := marker
   /\ pc[w] = "clock"
@@ -111,7 +112,7 @@ ReadClock(w) ==                  \* "clock" -> p1: now := clock; oldTime := mark
   /\ rd' = [rd EXCEPT ![wId[w]] = now]
   /\ Goto(w, "p1")
   /\ UEnv /\ UNCHANGED <<marker, file, oldFile, handles, dir, lock, wNew, wCur, wFile, wId, nWrites, acked, lost,
-                         wStartTick, wEndTick, createdBy, failedCreates, cand, solo, stale>>
+                         wStartTick, wEndTick, createdBy, failedCreates, cand, solo, stale, retried>>
 
 CompareAndSwap(w) ==             \* p1 -> p2 (rotation won) | p20 (nothing to do / somebody else rotates)
   /\ pc[w] = "p1"
@@ -119,14 +120,14 @@ CompareAndSwap(w) ==             \* p1 -> p2 (rotation won) | p20 (nothing to do
      THEN marker' = Ivl(wNow[w]) /\ lock' = (IF UseLock THEN w ELSE lock) /\ Goto(w, "p2")
      ELSE marker' = marker /\ lock' = lock /\ Goto(w, "p20")
   /\ UEnv /\ UNCHANGED <<file, oldFile, handles, dir, wNow, wOld, wNew, wCur, wFile, wId, nWrites, acked, lost,
-                         wStartTick, wEndTick, createdBy, failedCreates, rd, cand, solo, stale>>
+                         wStartTick, wEndTick, createdBy, failedCreates, rd, cand, solo, stale, retried>>
 
 CloseOlder(w) ==                 \* p2 -> p3: close the file of two rotations ago
   /\ pc[w] = "p2"
   /\ handles' = CloseH(handles, oldFile) /\ oldFile' = NULL
   /\ Goto(w, "p3")
   /\ UEnv /\ UNCHANGED <<marker, file, dir, lock, wNow, wOld, wNew, wCur, wFile, wId, nWrites, acked, lost, wStartTick,
-                         wEndTick, createdBy, failedCreates, rd, cand, solo, stale>>
+                         wEndTick, createdBy, failedCreates, rd, cand, solo, stale, retried>>
 
 CreateAndLoad(w) ==              \* p3 -> p4 (created; cur := file) | p20 (creation failed, report, return)
   /\ pc[w] = "p3"
@@ -141,26 +142,26 @@ CreateAndLoad(w) ==              \* p3 -> p4 (created; cur := file) | p20 (creat
           /\ lock' = (IF lock = w THEN NULL ELSE lock)
           /\ Goto(w, "p20") /\ UNCHANGED <<handles, dir, wNew, wCur, createdBy>>
   /\ UEnv /\ UNCHANGED <<marker, file, oldFile, wNow, wOld, wFile, wId, nWrites, acked, lost, wStartTick, wEndTick,
-                         rd, cand, solo>>
+                         rd, cand, solo, retried>>
 
 PublishOld(w) ==                 \* p4 -> p5
   /\ pc[w] = "p4" /\ oldFile' = wCur[w] /\ Goto(w, "p5")
   /\ UEnv /\ UNCHANGED <<marker, file, handles, dir, lock, wNow, wOld, wNew, wCur, wFile, wId, nWrites, acked, lost,
-                         wStartTick, wEndTick, createdBy, failedCreates, rd, cand, solo, stale>>
+                         wStartTick, wEndTick, createdBy, failedCreates, rd, cand, solo, stale, retried>>
 PublishNew(w) ==                 \* p5 -> p6
   /\ pc[w] = "p5" /\ file' = wNew[w] /\ Goto(w, "p6")
   /\ UEnv /\ UNCHANGED <<marker, oldFile, handles, dir, lock, wNow, wOld, wNew, wCur, wFile, wId, nWrites, acked, lost,
-                         wStartTick, wEndTick, createdBy, failedCreates, rd, cand, solo, stale>>
+                         wStartTick, wEndTick, createdBy, failedCreates, rd, cand, solo, stale, retried>>
 PublishTime(w) ==                \* p6 -> p7: the pinned tree stores the marker again (it may move backwards)
   /\ pc[w] = "p6"
   /\ marker' = IF UseLock THEN marker ELSE Ivl(wNow[w])
   /\ Goto(w, "p7")
   /\ UEnv /\ UNCHANGED <<file, oldFile, handles, dir, lock, wNow, wOld, wNew, wCur, wFile, wId, nWrites, acked, lost,
-                         wStartTick, wEndTick, createdBy, failedCreates, rd, cand, solo, stale>>
+                         wStartTick, wEndTick, createdBy, failedCreates, rd, cand, solo, stale, retried>>
 EndRotate(w) ==                  \* p7 -> p20: unlock, spawn cleanup, return from rotate
   /\ pc[w] = "p7" /\ lock' = (IF lock = w THEN NULL ELSE lock) /\ Goto(w, "p20")
   /\ UEnv /\ UNCHANGED <<marker, file, oldFile, handles, dir, wNow, wOld, wNew, wCur, wFile, wId, nWrites, acked, lost,
-                         wStartTick, wEndTick, createdBy, failedCreates, rd, cand, solo, stale>>
+                         wStartTick, wEndTick, createdBy, failedCreates, rd, cand, solo, stale, retried>>
 
 LoadForWrite(w) ==               \* p20 -> p21 | p22 (no file: dropped silently, as after Stop)
   /\ pc[w] = "p20"
@@ -168,19 +169,20 @@ LoadForWrite(w) ==               \* p20 -> p21 | p22 (no file: dropped silently,
   /\ IF file = NULL THEN Goto(w, "p22") /\ lost' = lost \cup {wId[w]}
      ELSE Goto(w, "p21") /\ lost' = lost
   /\ UEnv /\ UNCHANGED <<marker, file, oldFile, handles, dir, lock, wNow, wOld, wNew, wCur, wId, nWrites, acked,
-                         wStartTick, wEndTick, createdBy, failedCreates, rd, cand, solo, stale>>
+                         wStartTick, wEndTick, createdBy, failedCreates, rd, cand, solo, stale, retried>>
 
 DoWrite(w) ==                    \* p21 -> p22 (landed, or lost on a closed file) | p21 (retry on the current file)
   /\ pc[w] = "p21"
   /\ LET h == wFile[w] IN
      IF handles[h].open
      THEN /\ dir' = [dir EXCEPT ![handles[h].name] = Append(@, wId[w])]
-          /\ Goto(w, "p22") /\ UNCHANGED <<lost, wFile>>
+          /\ Goto(w, "p22") /\ UNCHANGED <<lost, wFile, retried>>
      ELSE IF Retry
           THEN IF file = NULL
-               THEN Goto(w, "p22") /\ lost' = lost \cup {wId[w]} /\ UNCHANGED <<dir, wFile>>
-               ELSE wFile' = [wFile EXCEPT ![w] = file] /\ Goto(w, "p21") /\ UNCHANGED <<dir, lost>>
-          ELSE Goto(w, "p22") /\ lost' = lost \cup {wId[w]} /\ UNCHANGED <<dir, wFile>>
+               THEN Goto(w, "p22") /\ lost' = lost \cup {wId[w]} /\ UNCHANGED <<dir, wFile, retried>>
+               ELSE /\ wFile' = [wFile EXCEPT ![w] = file] /\ retried' = retried \cup {wId[w]}
+                    /\ Goto(w, "p21") /\ UNCHANGED <<dir, lost>>
+          ELSE Goto(w, "p22") /\ lost' = lost \cup {wId[w]} /\ UNCHANGED <<dir, wFile, retried>>
   /\ UEnv /\ UNCHANGED <<marker, file, oldFile, handles, lock, wNow, wOld, wNew, wCur, wId, nWrites, acked,
                          wStartTick, wEndTick, createdBy, failedCreates, rd, cand, solo, stale>>
 
@@ -191,7 +193,7 @@ Return(w) ==                     \* p22 -> idle
   /\ cand' = cand \ {wId[w]}
   /\ Goto(w, "idle")
   /\ UEnv /\ UNCHANGED <<marker, file, oldFile, handles, dir, lock, wNow, wOld, wNew, wCur, wFile, wId, nWrites, lost,
-                         wStartTick, createdBy, failedCreates, rd, stale>>
+                         wStartTick, createdBy, failedCreates, rd, stale, retried>>
 
 WriterStep(w) == Begin(w) \/ ReadClock(w) \/ CompareAndSwap(w) \/ CloseOlder(w) \/ CreateAndLoad(w)
                  \/ PublishOld(w) \/ PublishNew(w) \/ PublishTime(w) \/ EndRotate(w)
